@@ -102,12 +102,13 @@ pub fn c01(ctx: &Ctx) -> (CheckMeta, Outcome) {
                     max_states: 3_000_000,
                     real_backends: true,
                     check_counter: false,
+                    leaf_combos: if thorough { 20 } else { 4 },
                 };
                 out.merge(explore(&run));
                 // fixpoint (whole reachable space) for the 8-bit writer
                 if wbits == 8 {
                     let alph = vec![if thorough { full.clone() } else { bnd.clone() }];
-                    let run = WrRun { property: "C01", e, wbits, wrapper: "", depth: 0, alphabets: &alph, fixpoint: true, max_states: 2_000_000, real_backends: false, check_counter: false };
+                    let run = WrRun { property: "C01", e, wbits, wrapper: "", depth: 0, alphabets: &alph, fixpoint: true, max_states: 2_000_000, real_backends: false, check_counter: false, leaf_combos: 20 };
                     let o = explore(&run);
                     out.cov.notes.push(format!("{}: fixpoint of the 8-bit writer reached with {} states", cfg_id(e, wbits, ""), o.cov.states));
                     out.merge(o);
@@ -122,6 +123,78 @@ pub fn c01(ctx: &Ctx) -> (CheckMeta, Outcome) {
         level: "model_checking",
         rule: "explicit-state BFS over the real BufBitWriter (recording backend; state = Debug string (buffer, space_left) + model pending bits; rebuilt by replaying the shortest history) for E x W in {8,16,32,64,128}; alphabet write_bits(n 0..=64 x 4 value patterns x {clean, bit n set, all bits >= n set}), write_unary(0..=2W+1, 3W-1, 3W, 3W+1, 5W+3), flush; every transition: return value and words delivered during the step vs the bit-vector model; every node's history is replayed on vec/vecref/slice/adapter/rec backends with flush, flush;flush, into_inner, drop and the whole byte image compared (traces_validated_against_impl counts these replays)".into(),
         assumptions: vec!["reference model = canonical layout (harness/src/model.rs)".into(), "by parametricity in the WordWrite backend the writer's future depends on (buffer, space_left) only".into()],
+    };
+    (meta, out)
+}
+
+fn io_patterns(len: usize) -> [Vec<u8>; 2] {
+    let a: Vec<u8> = (0..len).map(|i| (0x90u8).wrapping_add((i as u8).wrapping_mul(0x3B)) | 1).collect();
+    let b: Vec<u8> = (0..len).map(|i| if i % 3 == 0 { 0xFF } else { (i as u8).wrapping_mul(0x71) }).collect();
+    [a, b]
+}
+
+pub fn c12(ctx: &Ctx) -> (CheckMeta, Outcome) {
+    let mut tasks: Vec<Task> = vec![];
+    for e in End::BOTH {
+        for wbits in WBITS {
+            let seed = ctx.seed;
+            let thorough = ctx.thorough;
+            tasks.push(Box::new(move || {
+                let pats = value_patterns(seed);
+                let bnd = boundary_alphabet(wbits, seed, false);
+                let mut io_all: Vec<WOp> = vec![];
+                for len in 0..=40usize {
+                    for p in io_patterns(len) {
+                        io_all.push(WOp::IoWrite(p));
+                        if len == 0 {
+                            break;
+                        }
+                    }
+                }
+                for len in [41usize, 47, 48, 49, 63, 64, 65, 100] {
+                    io_all.push(WOp::IoWrite(io_patterns(len)[0].clone()));
+                }
+                let io_few: Vec<WOp> = [0usize, 1, 3, 7, 8, 9, 16, 17].iter().map(|&l| WOp::IoWrite(io_patterns(l)[1].clone())).collect();
+                // level 0: reach every fill level (every starting bit offset)
+                let mut l0: Vec<WOp> = (0..=64u8.min(wbits as u8 - 1)).map(|n| WOp::WriteBits { v: pats[3] & mask(n), n }).collect();
+                l0.push(WOp::Unary(wbits as u64 + 3));
+                let mut alphabets: Vec<Vec<WOp>> = vec![l0];
+                if wbits > 64 {
+                    let mut l1: Vec<WOp> = (1..64u8).map(|n| WOp::WriteBits { v: pats[2] & mask(n), n }).collect();
+                    l1.extend(io_all.clone());
+                    alphabets.push(l1);
+                }
+                let mut l2 = io_all.clone();
+                l2.extend(bnd.clone());
+                alphabets.push(l2);
+                let mut l3 = io_few.clone();
+                if thorough {
+                    l3.extend(bnd.clone());
+                } else {
+                    l3.truncate(4);
+                    l3.push(WOp::Flush);
+                    l3.push(WOp::WriteBits { v: 1, n: 1 });
+                    l3.push(WOp::WriteBits { v: pats[3] & mask(wbits.min(64) as u8 - 1), n: wbits.min(64) as u8 - 1 });
+                }
+                alphabets.push(l3);
+                if thorough {
+                    let mut l4 = io_few.clone();
+                    l4.push(WOp::Flush);
+                    l4.push(WOp::WriteBits { v: 1, n: 1 });
+                    alphabets.push(l4);
+                }
+                let run = WrRun { property: "C12", e, wbits, wrapper: "", depth: alphabets.len(), alphabets: &alphabets, fixpoint: false, max_states: 3_000_000, real_backends: true, check_counter: false, leaf_combos: if thorough { 20 } else { 3 } };
+                explore(&run)
+            }));
+        }
+    }
+    let mut out = run_all(tasks, threads());
+    out.merge(crate::props::readers::c12_read(ctx));
+    let meta = CheckMeta {
+        property: "C12",
+        level: "model_checking",
+        rule: "write side: BFS over the real BufBitWriter for E x W in {8..128}: level 0 reaches every buffer fill level (every starting bit offset), then std::io::Write::write of every slice length 0..=40 (two byte patterns) and 41,47,48,49,63,64,65,100, then further byte writes / boundary bit writes / flush; returned count must equal the slice length, delivered words and final images on all real backends must equal the model (byte = 8 stream bits in stream order); read side: BFS to the fixpoint of every reader kind over zero-extended/strict/Cursor backends with io::Read of every length 0..=40 at every reachable state".into(),
+        assumptions: vec!["reference model = canonical layout".into()],
     };
     (meta, out)
 }
